@@ -8,6 +8,7 @@
 mod builder;
 mod common;
 mod descr;
+mod disas;
 mod engine;
 mod loader;
 mod operand;
@@ -68,6 +69,7 @@ fn main() {
     out.insert("traverse".into(), traverse::extract(&mut cx));
     out.insert("loader".into(), loader::extract(&mut cx));
     out.insert("panics".into(), panics::extract(&mut cx));
+    out.insert("disas".into(), disas::extract(&mut cx));
     out.insert("failures".into(), json!(cx.failures));
     let v = Value::Object(out);
     std::fs::write(&args[2], serde_json::to_string_pretty(&v).unwrap()).unwrap();
